@@ -22,7 +22,7 @@ func (c03) Rule() string {
 		"twice on the real server: GC on (defaults) and GC off (document.WithDisableGC + SnapshotDisableGC). Oracle: no sync / apply " +
 		"error in the GC-on run, replicas converge, and every replica's content at every quiescent point equals its GC-off twin. " +
 		"Reported only when the GC-off twin is itself clean. Non-trivial = a purge (GarbageLen drop) was observed on some replica " +
-		"in the GC-on run and >=2 replicas edited. Distinct = hash of the step list."
+		"in the GC-on run and >=2 replicas edited. Distinct = hash of the step list. Every fifth history has ONE writer that syncs seldom and readers that sync and collect meanwhile (fence of F-RGA-PURGE off there)."
 }
 func (c03) Assumptions() []string {
 	return []string{"memdb backend", "how much is collected is not judged (only counted)", "replica driver mirrors client.Client"}
